@@ -100,6 +100,14 @@ package annotateparser
 //@   props C16
 //@   ensures[array-wraps-the-single-type] typeis(result, "*annotateast.ArrayType") ==> as(result, "*annotateast.ArrayType").ItemType != nil && !typeis(as(result, "*annotateast.ArrayType").ItemType, "*annotateast.ArrayType")
 //@ end
+// the "[]" suffix is looked for after EVERY kind of single type - a parenthesised union included, "(A|B)[]" is the
+// documented way to write an array of a union -, and when it is there the result is the array of exactly the type parsed
+//@ func parserSingleType
+//@   props C16
+//@   ensures[array-suffix-is-looked-for-after-every-single-type] hits("LookAheadKind#1") == 1
+//@   ensures[suffix-consumed-iff-array-of-the-type-just-parsed] (hits("NextTokenOfKind#2") == 1 <==> typeis(result, "*annotateast.ArrayType"))
+//@        && (typeis(result, "*annotateast.ArrayType") ==> as(result, "*annotateast.ArrayType").ItemType == subType) && (!typeis(result, "*annotateast.ArrayType") ==> result == subType)
+//@ end
 
 //@ func parserOneType
 //@   sweep C01
